@@ -2,6 +2,7 @@ package c09
 
 import (
 	"encoding/json"
+	"strconv"
 	"strings"
 	"unicode/utf8"
 
@@ -88,8 +89,14 @@ func fixed() []Snip {
 		tpl("<@a1>", named("a1", mutated(tplArgs("@x", named("x", X)), set("x", block("LATER"))))),
 		spf("%v|%T", sarg(mutated(tplArgs("@x", named("x", X)), del("x"))), sarg(mutated(tplArgs("@y'", named("y", X)), set("y", nilS())))),
 		fragments(mutated(tplArgs("@x", named("x", tpl("@y", named("y", X)))), set("x", tpl("@y")))),
-		// the known finding and the malformed stream
+		// U+FEFF in a format is a character like any other (text/scanner drops one at the start of its source; until
+		// fixes/C09-5-leading-bom.diff the format lost it): at the start, after T's trimmed newlines, twice, alone, inside
 		tpl(bomS + "a"), tpl("\n\n"+bomS+"a@x", named("x", X)), tpl("a" + bomS + "b"), tpl(bomS + bomS + "a"), spf(bomS+"a%v", varg(Val{T: "int", I: 1})),
+		tpl(bomS), spf(bomS), tpl("\n" + bomS), tpl("\n" + bomS + bomS), spf(bomS + bomS), spf("a"+bomS+"%v"+bomS, varg(Val{T: "int", I: 1})),
+		tpl(bomS+"@x'"+bomS+"@x"+bomS, named("x", X)), tpl(bomS+"\n"+bomS+"@"), tpl(bomS+"@x", named("x", spf(bomS+"%v", sarg(tpl("\n"+bomS+bomS))))),
+		spf(bomS+"%%"+bomS+"%T", sarg(tpl(bomS))), snippets(tpl(bomS), spf(bomS), tpl("\n"+bomS+"b")), fragments(tpl(bomS+"'")),
+		tpl(bomS+"\xff@x", named("x", X)), spf("\xef\xbb" + bomS), tpl("\n\xef\xbb\xbf\xbf"),
+		// the malformed stream
 		tpl("a\xffb\xe1\x80@x", named("x", X)), tpl("\xef\xbb@x", named("x", X)), spf("\xc3%v\xed\xa0\x80", varg(Val{T: "int", I: 1})),
 		tpl("\xf0\x9f\x98\x80@x\xf4\x90\x80\x80", named("x", X)),
 	}
@@ -468,19 +475,50 @@ func (g *gen) root() Snip {
 	}
 }
 
-// malformed stream: invalid UTF-8 in a format, a leading BOM, an untyped nil handed to %v
+// withBOM puts lead (U+FEFF, once or twice, or nothing) at the start of the format of a template (after the leading
+// newlines T trims, adding some in half of the cases that have none) or of a Sprintf, and with inside (always when
+// lead is empty) one more U+FEFF at a rune boundary further on
+func (g *gen) withBOM(s Snip, lead string, inside bool) Snip {
+	r := g.r
+	f := string(s.S)
+	nl := 0
+	if s.K == "t" {
+		nl = len(f) - len(strings.TrimLeft(f, "\n"))
+		if nl == 0 && r.Bool() {
+			nl = 1 + r.Intn(2)
+			f = strings.Repeat("\n", nl) + f
+		}
+	}
+	rest := f[nl:]
+	if inside || lead == "" {
+		i := r.Intn(len(rest) + 1)
+		for i < len(rest) && !utf8.RuneStart(rest[i]) {
+			i++
+		}
+		rest = rest[:i] + bomS + rest[i:]
+	}
+	s.S = []byte(f[:nl] + lead + rest)
+	s.Q = strconv.Quote(string(s.S))
+	return s
+}
+
+// U+FEFF in a format: at the start (60% once, 20% twice, 10% U+FEFF newline U+FEFF) and / or inside
+func (g *gen) bomFormat(s Snip) Snip {
+	r := g.r
+	lead := core.Pick(r, []string{bomS, bomS, bomS, bomS, bomS, bomS, bomS + bomS, bomS + bomS, bomS + "\n" + bomS, ""})
+	return g.withBOM(s, lead, r.Chance(30))
+}
+
+// malformed stream: invalid UTF-8 in a format, an untyped nil handed to %v; and (inside the domain since
+// fixes/C09-5-leading-bom.diff, kept in this stream) formats that start with U+FEFF
 func (g *gen) malformed() Snip {
 	r := g.r
 	switch r.Intn(10) {
-	case 0, 1, 2: // leading BOM (known finding)
+	case 0, 1, 2: // U+FEFF at the start of a format (T: after the trimmed newlines), doubled, inside
 		if r.Bool() {
-			t := g.template(1)
-			f := string(t.S)
-			nl := len(f) - len(strings.TrimLeft(f, "\n"))
-			return tpl(f[:nl]+bomS+f[nl:], t.Args...)
+			return g.bomFormat(g.template(1))
 		}
-		s := g.sprintf(3) // depth 3: no nested snippets
-		return spf(bomS+string(s.S), s.Args...)
+		return g.bomFormat(g.sprintf(3)) // depth 3: no nested snippets
 	case 3, 4: // untyped nil as a plain Sprintf argument
 		return spf(core.Pick(r, []string{"%v", "a%vb", "%T", "%v%v", "x"}), varg(Val{T: "nil"}), varg(g.val()))
 	default:
@@ -590,6 +628,9 @@ func (g *gen) richRoot() Snip {
 	default:
 		s = g.richLeaf()
 	}
+	if (s.K == "t" || s.K == "sprintf") && r.Chance(4) {
+		s = g.bomFormat(s)
+	}
 	s.Self = core.Pick(r, selfPool)
 	return s
 }
@@ -676,7 +717,11 @@ func (prop) Generate(r *core.RNG, tier string) []json.RawMessage {
 			b.WriteString(core.Pick(r, []string{"é", "世", "a", "@x", "@x'", " ", "😀"}))
 		}
 		b.WriteString("世界@x'é")
-		out = append(out, enc(tpl(b.String(), named("x", block("X")))))
+		f := b.String()
+		if i == 2 { // ... and the U+FEFF the repaired code puts in front shifts every rune of the format by three bytes
+			f = bomS + f
+		}
+		out = append(out, enc(tpl(f, named("x", block("X")))))
 	}
 	{ // the RenderStack stream (its own fork of the RNG: the classic stream of a seed is unchanged)
 		gr := &gen{r: r.Fork()}
